@@ -92,7 +92,21 @@ pub fn candidate_env_names(bin: &str) -> Vec<String> {
             i += 1;
         }
     }
-    out.into_iter().take(30000).collect()
+    // keep the environment block modest (execve refuses one beyond a fraction of the stack limit): names that look like
+    // configuration (an underscore, or longer) first, within a budget of 96 KiB
+    let mut names: Vec<String> = out.into_iter().collect();
+    names.sort_by_key(|n| (!n.contains('_'), std::cmp::Reverse(n.len().min(12)), n.clone()));
+    let mut budget: usize = 96 * 1024;
+    let mut kept = vec![];
+    for n in names {
+        let cost = n.len() + 12;
+        if cost > budget {
+            break;
+        }
+        budget -= cost;
+        kept.push(n);
+    }
+    kept
 }
 
 fn run_limited(bin: &str, rule_text: &str, channel: &Channel, limit_s: u64, env: Option<&Env>) -> Result<CliOut, String> {
@@ -124,7 +138,7 @@ fn run_limited(bin: &str, rule_text: &str, channel: &Channel, limit_s: u64, env:
         }
     };
     cmd.env("RUST_BACKTRACE", "0").stdin(if stdin_text.is_some() { Stdio::piped() } else { Stdio::null() }).stdout(Stdio::piped()).stderr(Stdio::piped());
-    let mut child = cmd.spawn().map_err(|e| format!("cannot spawn {}: {}", bin, e))?;
+    let mut child = cmd.spawn().map_err(|e| format!("oracle_broken: cannot spawn {}: {}", bin, e))?;
     let mut feeder = None;
     if let Some((text, chunk)) = stdin_text {
         let mut sin = child.stdin.take().ok_or("no stdin")?;
@@ -204,7 +218,7 @@ pub fn run_tty(bin: &str, rule_text: &str, data_text: &str) -> Result<Option<Cli
     let mut child = {
         let mut cmd = Command::new(bin);
         cmd.arg(rule_text).arg(data_text).env("RUST_BACKTRACE", "0").env("TERM", "xterm-256color").stdin(Stdio::null()).stdout(Stdio::from(out_end)).stderr(Stdio::piped());
-        cmd.spawn().map_err(|e| format!("cannot spawn {}: {}", bin, e))?
+        cmd.spawn().map_err(|e| format!("oracle_broken: cannot spawn {}: {}", bin, e))?
     };
     drop(slave_file);
     let reader = std::thread::spawn(move || {
